@@ -203,3 +203,38 @@ func VerifC10_Locks(L int) {
 	verifAssert(verifLocksReleased(), "MACCommand.UnmarshalBinary releases the registry lock on every path")
 	verifReach("done")
 }
+
+// PHYPayload.EncryptFRMPayload / EncryptFOpts leave the caller's plaintext buffers alone, and the encrypted
+// frame does not alias them.
+func VerifC10_EncryptKeepsCaller(mt, nFOpts, nFRM int) {
+	mtype := c03MType(mt)
+	key := AES128Key(verifNondetKey("key"))
+	frm := verifNondetBytes("frm", nFRM)
+	fo := verifNondetBytes("fopts", nFOpts)
+	frmOrig, foOrig := verifCopy(frm), verifCopy(fo)
+	port := verifNondetU8("fport")
+	verifAssume(port > 0)
+	mp := &MACPayload{FPort: &port}
+	mp.FHDR.DevAddr = DevAddr(verifNondet4("devaddr"))
+	mp.FHDR.FCnt = verifNondetU32("fcnt")
+	if nFRM > 0 {
+		mp.FRMPayload = []Payload{&DataPayload{Bytes: frm}} // the caller keeps frm
+	}
+	if nFOpts > 0 {
+		mp.FHDR.FOpts = []Payload{&DataPayload{Bytes: fo}}
+	}
+	p := &PHYPayload{MHDR: MHDR{MType: mtype}, MACPayload: mp}
+	verifAssert(p.EncryptFRMPayload(key) == nil, "EncryptFRMPayload succeeds")
+	verifAssert(verifBytesEq(frm, frmOrig), "PHYPayload.EncryptFRMPayload does not overwrite the caller's plaintext buffer")
+	verifAssert(p.EncryptFOpts(key) == nil, "EncryptFOpts succeeds")
+	verifAssert(verifBytesEq(fo, foOrig), "PHYPayload.EncryptFOpts does not overwrite the caller's FOpts buffer")
+	out1, err := p.MarshalBinary()
+	verifAssert(err == nil, "the encrypted frame encodes")
+	snap := verifCopy(out1)
+	verifHavoc(frm)
+	verifHavoc(fo)
+	out2, err := p.MarshalBinary()
+	verifAssert(err == nil, "the encrypted frame still encodes")
+	verifAssert(verifBytesEq(out2, snap), "the encrypted frame does not alias the caller's plaintext buffers")
+	verifReach("done")
+}
